@@ -150,8 +150,9 @@ def main():
     rep.coverage["z3_enumeration_queries"] = nq
     # longest items first: the pool hands items out one by one
     order = sorted(range(len(items)), key=lambda i: -len(items[i][2]) * (8 if items[i][1].endswith("_be") else 1))
-    for col in run_parallel(work, [items[i] for i in order], a.jobs):
-        rep.merge(col)
+    cols = dict(zip(order, run_parallel(work, [items[i] for i in order], a.jobs)))
+    for i in sorted(cols, key=lambda i: (i % 7, i)):  # merged in a fixed order that mixes the families (evidence samples)
+        rep.merge(cols[i])
     cov = rep.coverage
     nh = cov.get("histories", 0)
     cov["states"] = max(1, nh)
